@@ -23,6 +23,13 @@ class ExtTaskPool(TaskPool):
     def _hidden(self) -> None:
         """Not public."""
 
+    def blank_doc(self) -> int:
+        """ """
+        return 1
+
+    def no_doc(self, flag: bool = False) -> int:
+        return 2
+
 
 class ExtSimpleTaskPool(SimpleTaskPool):
     def double_up(self) -> int:
@@ -33,3 +40,13 @@ class ExtSimpleTaskPool(SimpleTaskPool):
     def mood(self) -> str:
         """How the pool feels."""
         return "fine"
+
+    @property
+    def blank_prop(self) -> int:
+        """
+        """
+        return 3
+
+    @blank_prop.setter
+    def blank_prop(self, value: int) -> None:
+        self._blank = value
